@@ -90,6 +90,9 @@ type Config struct {
 	NumTreasury int
 	DataSources []DataSourceSpec
 	ExtraDenoms []string // extra denoms minted to every account (same amount as uband balance)
+	// GenesisScripts: number of genesis oracle scripts (0 = all of GenesisScriptWasms); a family whose scripts count on
+	// "the first free oracle script id" pins it
+	GenesisScripts int
 	// DistinctConsKeys: validators get a consensus key of their own (as on a live chain), so that operator address and
 	// consensus address are different byte strings
 	DistinctConsKeys bool
@@ -226,6 +229,12 @@ const watDesc = `
 	(memory $memory (export "memory") 17)
 	(data (i32.const 1024) "test"))
 `
+
+// GenesisScriptWasms: the code of the genesis oracle scripts, index = script id - 1 (families that track the registries
+// need to know every genesis file)
+func GenesisScriptWasms() [][]byte {
+	return [][]byte{testdata.Wasm1, Wat2Wasm(watFail1), testdata.Wasm4, Wat2Wasm(watOK1), Wat2Wasm(watOKNil), Wat2Wasm(watDesc)}
+}
 
 var DefaultConsensusParams = &cmtproto.ConsensusParams{
 	Block:    &cmtproto.BlockParams{MaxBytes: 3000000, MaxGas: -1},
@@ -465,7 +474,10 @@ func (w *World) genesis() band.GenesisState {
 		og.DataSources = append(og.DataSources, oracletypes.NewDataSource(
 			w.Owner.Addr, fmt.Sprintf("ds%d", i+1), "", hash, ds.Fee, w.Treasuries[ds.Treasury].Addr))
 	}
-	wasms := [][]byte{testdata.Wasm1, Wat2Wasm(watFail1), testdata.Wasm4, Wat2Wasm(watOK1), Wat2Wasm(watOKNil), Wat2Wasm(watDesc)}
+	wasms := GenesisScriptWasms()
+	if cfg.GenesisScripts > 0 && cfg.GenesisScripts < len(wasms) {
+		wasms = wasms[:cfg.GenesisScripts]
+	}
 	for i, code := range wasms {
 		hash := fc.AddFile(testdata.Compile(code))
 		og.OracleScripts = append(og.OracleScripts, oracletypes.NewOracleScript(
